@@ -13,6 +13,24 @@
 (*                  entering a final state runs PilotFinal's effect        *)
 (*   RemovePilots(p) TaskManager.remove_pilots: the pilot leaves the task  *)
 (*                  manager, the tasks already bound to it stay bound      *)
+(*   AddPilots(G)   TaskManager.add_pilots on a list of pilots: each of    *)
+(*                  them is watched from then on                           *)
+(*   DeathSelect(p), DeathApply(t), DeathEnd                               *)
+(*                  _pilot_state_cb as what it is next to the state        *)
+(*                  subscriber thread: a second writer of Task.state that  *)
+(*                  takes no lock.  It selects its victims (bound to p,    *)
+(*                  not final), then applies FAILED to them one by one     *)
+(*                  through Task._update; Notify / Bind may happen in      *)
+(*                  between, so a victim may be final (and announced) by   *)
+(*                  the time FAILED is applied                             *)
+(*   DirectUpdate(t, s) Task._update(<final state>) on a final task        *)
+(*   NBegin(b), NSelect, NApply, NToFire, NFire                            *)
+(*                  _update_tasks step by step, the other way round of the *)
+(*                  same race: for one entry the passed states are         *)
+(*                  computed from Task.state, then applied one by one      *)
+(*                  through Task._update, and after the whole batch the    *)
+(*                  callbacks are fired; the pilot callback may set FAILED *)
+(*                  between any two of these steps                         *)
 (* Code bookkeeping: tstate (Task._state), bound (Task._pilot), detail     *)
 (* (pilot named in Task.exception_detail), pstate (Pilot._state).          *)
 (* Ghosts: cbLog / pcbLog (states handed to TASK_STATE / PILOT_STATE       *)
@@ -26,8 +44,18 @@
 (*   DevPFinalRaise         DONE pilot + other final raises                *)
 (*   DevRemovedUnwatched    (no known defect; seeded regression) a removed *)
 (*                          pilot is no longer watched: its end fails nobody *)
-(* The last two leave the invariants of C14 intact (they break only        *)
-(* PBatchComplete, which is not part of any listed property).              *)
+(*   DevApplyNoRecheck      (seeded regression) Task._update lets an update *)
+(*                          through although the task is final             *)
+(*   DevApplyOverCanceled   D23 Task._update copies the notified state over *)
+(*                          a CANCELED task (DONE / FAILED are protected)  *)
+(*   DevLoopAborts          D24 an exception inside the callback's loop    *)
+(*                          (as_dict of one task) shields the later tasks  *)
+(*   DevAnnounceUnapplied   D25 _update_tasks announces every passed state *)
+(*                          it computed, applied by Task._update or not    *)
+(*   DevAddLastWatched      (seeded regression) of a list handed to        *)
+(*                          add_pilots only one pilot is watched           *)
+(* DevPBatchFirst / DevPFinalRaise leave the invariants of C14 intact (they *)
+(* break only PBatchComplete, which is not part of any listed property).   *)
 (***************************************************************************)
 EXTENDS ClientStateOps, TLC
 
@@ -41,13 +69,28 @@ CONSTANTS Tasks, UnknownTasks,      \* known / unknown task ids
           DevFinalRaise, DevPilotCbAll, DevPilotCbCanceled,
           DevPBatchFirst, DevPFinalRaise,
           AllowRemove,              \* TRUE: RemovePilots is part of the action set
-          DevRemovedUnwatched
+          DevRemovedUnwatched,
+          Race,                     \* TRUE: two-step pilot death and DirectUpdate
+          LateAdd,                  \* TRUE: pilots join the task manager by AddPilots
+          DevApplyNoRecheck, DevApplyOverCanceled, DevLoopAborts, DevAddLastWatched,
+          DevAnnounceUnapplied
 
 VARIABLES tstate, cbLog, bound, detail, pstate, pcbLog, dead, removed,
-          iso, ownOK, keepOK, unkOK, pcomplete
+          iso, ownOK, keepOK, unkOK, pcomplete,
+          dying, todo, own,         \* pilot callback in progress: pilot, victims left, reference victims
+          added, watched,           \* pilots handed to add_pilots / with _pilot_state_cb registered
+          nphase, nb, plan, tonote, \* _update_tasks in progress: phase, entries left, <<uid, states
+                                    \* left to apply>>, <<uid, state>> to announce
+          atOK                      \* ghost: a callback never announced a state Task.state contradicts
 
 vars == <<tstate, cbLog, bound, detail, pstate, pcbLog, dead, removed,
-          iso, ownOK, keepOK, unkOK, pcomplete>>
+          iso, ownOK, keepOK, unkOK, pcomplete, dying, todo, own, added, watched,
+          nphase, nb, plan, tonote, atOK>>
+
+step == <<nphase, nb, plan, tonote, atOK>>
+
+race == <<dying, todo, own>>
+adds == <<added, watched>>
 
 None == "none"
 
@@ -62,6 +105,9 @@ TypeOK ==
   /\ detail \in [Tasks -> Pilots \cup {None}]
   /\ pstate \in [Pilots -> AllStates(NP)]
   /\ dead \subseteq Pilots /\ removed \subseteq Pilots
+  /\ dying \in Pilots \cup {None} /\ todo \subseteq Tasks /\ own \subseteq Tasks
+  /\ watched \subseteq added /\ added \subseteq Pilots
+  /\ nphase \in {"idle", "apply", "fire"} /\ atOK \in BOOLEAN
   /\ \A t \in Tasks  : \A i \in 1 .. Len(cbLog[t])  : cbLog[t][i]  \in AllStates(NT)
   /\ \A p \in Pilots : \A i \in 1 .. Len(pcbLog[p]) : pcbLog[p][i] \in AllStates(NP)
 
@@ -73,28 +119,35 @@ Init ==
   /\ pstate = [p \in Pilots |-> 0]
   /\ pcbLog = [p \in Pilots |-> <<>>]
   /\ dead = {} /\ removed = {}
+  /\ dying = None /\ todo = {} /\ own = {}
+  /\ added = (IF LateAdd THEN {} ELSE Pilots) /\ watched = added
+  /\ nphase = "idle" /\ nb = <<>> /\ plan = <<>> /\ tonote = <<>> /\ atOK = TRUE
   /\ iso = TRUE /\ ownOK = TRUE /\ keepOK = TRUE /\ unkOK = TRUE /\ pcomplete = TRUE
 
 (* ------------------------------------------------------------------------ *)
 Notify(b) ==
   LET r == TRes(DevFinalRaise, b, tstate) IN
+  /\ nphase = "idle"
   /\ tstate' = r.st
   /\ cbLog'  = [t \in Tasks |-> cbLog[t] \o r.cb[t]]
   /\ iso'    = Isolated(DevFinalRaise, b, tstate)
-  /\ UNCHANGED <<bound, detail, pstate, pcbLog, dead, removed, ownOK, keepOK, unkOK, pcomplete>>
+  /\ UNCHANGED <<bound, detail, pstate, pcbLog, dead, removed, ownOK, keepOK, unkOK, pcomplete,
+                 race, adds, step>>
 
 \* the tmgr scheduler binds t to p: full task dict with 'pilot' and the next
 \* state; Task._update copies the pilot because the state moves
 Bind(t, p) ==
-  /\ bound[t] = None /\ tstate[t] < BindAt
+  /\ bound[t] = None /\ tstate[t] < BindAt /\ nphase = "idle"
   /\ p \notin dead /\ p \notin removed /\ ~IsFinal(NP, pstate[p])
+  /\ p \in added /\ p # dying
   /\ LET b == <<<<t, BindAt>>>>
          r == TRes(DevFinalRaise, b, tstate) IN
      /\ tstate' = r.st
      /\ cbLog'  = [u \in Tasks |-> cbLog[u] \o r.cb[u]]
      /\ iso'    = Isolated(DevFinalRaise, b, tstate)
   /\ bound' = [bound EXCEPT ![t] = p]
-  /\ UNCHANGED <<detail, pstate, pcbLog, dead, removed, ownOK, keepOK, unkOK, pcomplete>>
+  /\ UNCHANGED <<detail, pstate, pcbLog, dead, removed, ownOK, keepOK, unkOK, pcomplete,
+                 race, adds, step>>
 
 \* effect of the final-pilot callback for the pilots in `calls`, and what
 \* C13 says about it (reference = KillSeq without deviations)
@@ -109,29 +162,133 @@ Deaths(calls, fired) ==
   /\ keepOK' = \A t \in Tasks : ref.st[t] = tstate[t] => k.st[t] = tstate[t]
 
 PilotFinal(p) ==
-  /\ DirectFinal /\ p \notin dead
+  /\ DirectFinal /\ p \notin dead /\ dying = None
   /\ Deaths(<<p>>, <<p>>)
-  /\ UNCHANGED <<cbLog, bound, pstate, pcbLog, removed, iso, unkOK, pcomplete>>
+  /\ UNCHANGED <<cbLog, bound, pstate, pcbLog, removed, iso, unkOK, pcomplete, race, adds, step>>
 
 PNotify(b) ==
   LET r       == PRes(DevPBatchFirst, DevPFinalRaise, b, pstate)
       onlyUnk == \A i \in 1 .. Len(b) : b[i][1] = "pilot" => b[i][2] \notin Pilots IN
   /\ pstate' = r.st
   /\ pcbLog' = [p \in Pilots |-> pcbLog[p] \o r.cb[p]]
-  /\ Deaths(r.calls, IF DevRemovedUnwatched
-                      THEN SelectSeq(r.calls, LAMBDA q : q \notin removed) ELSE r.calls)
+  /\ dying = None
+  \* C13 speaks of the pilots the task manager was given; its callback runs for
+  \* those it watches
+  /\ Deaths(SelectSeq(r.calls, LAMBDA q : q \in added),
+            SelectSeq(r.calls, LAMBDA q : q \in watched /\ (DevRemovedUnwatched => q \notin removed)))
   /\ unkOK'  = (onlyUnk => r.st = pstate /\ ~r.raised /\ r.calls = <<>>
                            /\ \A p \in Pilots : r.cb[p] = <<>>)
   /\ pcomplete' = r.complete
-  /\ UNCHANGED <<cbLog, bound, removed, iso>>
+  /\ UNCHANGED <<cbLog, bound, removed, iso, race, adds, step>>
 
 \* the pilot leaves the task manager; nothing is said to the tasks bound to it
 \* (remove_pilots neither cancels nor unbinds them), so C13 keeps applying
 RemovePilots(p) ==
-  /\ AllowRemove /\ p \notin removed
+  /\ AllowRemove /\ p \notin removed /\ p \in added
   /\ removed' = removed \cup {p}
   /\ UNCHANGED <<tstate, cbLog, bound, detail, pstate, pcbLog, dead,
-                 iso, ownOK, keepOK, unkOK, pcomplete>>
+                 iso, ownOK, keepOK, unkOK, pcomplete, race, adds, step>>
+
+\* add_pilots(G): every pilot of the list is watched from now on
+AddPilots(G) ==
+  /\ LateAdd /\ G # {} /\ G \cap added = {}
+  /\ \A p \in G : ~IsFinal(NP, pstate[p]) /\ p \notin dead
+  /\ added'   = added \cup G
+  /\ watched' = watched \cup (IF DevAddLastWatched THEN {CHOOSE p \in G : TRUE} ELSE G)
+  /\ UNCHANGED <<tstate, cbLog, bound, detail, pstate, pcbLog, dead, removed,
+                 iso, ownOK, keepOK, unkOK, pcomplete, race, step>>
+
+(* ---- the pilot callback as a second writer of Task.state ---------------- *)
+\* the callback looks at the tasks: victims are those bound to p and not final
+DeathSelect(p) ==
+  /\ Race /\ DirectFinal /\ dying = None /\ p \notin dead
+  /\ dying' = p
+  /\ own'   = {t \in Tasks : Own(tstate, bound, t, p)}
+  /\ todo'  = {t \in Tasks : Hit(DevPilotCbAll, DevPilotCbCanceled, tstate, bound, t, p)}
+  /\ UNCHANGED <<tstate, cbLog, bound, detail, pstate, pcbLog, dead, removed,
+                 iso, ownOK, keepOK, unkOK, pcomplete, adds, step>>
+
+\* Task._update(FAILED) on one victim: it may have become final (and been
+\* announced to the application) since it was selected - then nothing changes
+Overwrites(cur, tgt) ==
+  \/ ~IsFinal(NT, cur)
+  \/ DevApplyNoRecheck
+  \/ DevApplyOverCanceled /\ cur = CanceledS(NT) /\ tgt # DoneS(NT)
+
+DeathApply(t) ==
+  /\ dying # None /\ t \in todo
+  /\ LET ch == Overwrites(tstate[t], FailedS(NT)) IN
+     /\ tstate' = IF ch THEN [tstate EXCEPT ![t] = FailedS(NT)] ELSE tstate
+     /\ detail' = IF ch THEN [detail EXCEPT ![t] = dying] ELSE detail
+     /\ keepOK' = (keepOK /\ (ch => t \in own))
+  \* an exception after the update (as_dict) ends the loop: the rest is shielded
+  /\ todo' \in {todo \ {t}} \cup (IF DevLoopAborts THEN {{}} ELSE {})
+  /\ UNCHANGED <<cbLog, bound, pstate, pcbLog, dead, removed, iso, ownOK, unkOK, pcomplete,
+                 dying, own, adds, step>>
+
+\* when the callback returns every reference victim is final: FAILED by the
+\* callback, or whatever the application was told in between
+DeathEnd ==
+  /\ dying # None /\ todo = {}
+  /\ ownOK' = \A t \in own : IsFinal(NT, tstate[t])
+  /\ dead'  = dead \cup {dying}
+  /\ dying' = None /\ own' = {}
+  /\ UNCHANGED <<tstate, cbLog, bound, detail, pstate, pcbLog, removed,
+                 iso, keepOK, unkOK, pcomplete, todo, adds, step>>
+
+\* Task._update with a final state on a task that is final already
+DirectUpdate(t, s) ==
+  /\ Race /\ IsFinal(NT, tstate[t]) /\ IsFinal(NT, s) /\ s # tstate[t]
+  /\ tstate' = IF Overwrites(tstate[t], s) THEN [tstate EXCEPT ![t] = s] ELSE tstate
+  /\ UNCHANGED <<cbLog, bound, detail, pstate, pcbLog, dead, removed,
+                 iso, ownOK, keepOK, unkOK, pcomplete, race, adds, step>>
+
+(* ---- _update_tasks step by step -------------------------------------------- *)
+NBegin(b) ==
+  /\ Race /\ nphase = "idle"
+  /\ nphase' = "apply" /\ nb' = b /\ plan' = <<>> /\ tonote' = <<>>
+  /\ UNCHANGED <<tstate, cbLog, bound, detail, pstate, pcbLog, dead, removed,
+                 iso, ownOK, keepOK, unkOK, pcomplete, race, adds, atOK>>
+
+\* next entry: what _task_state_progress makes of Task.state as it is now
+NSelect ==
+  /\ nphase = "apply" /\ plan = <<>> /\ nb # <<>>
+  /\ LET e  == Head(nb)
+         ps == IF e[1] \in Tasks THEN TRes(FALSE, <<e>>, tstate).cb[e[1]] ELSE <<>> IN
+     plan' = IF ps = <<>> THEN <<>> ELSE <<e[1], ps>>
+  /\ nb' = Tail(nb)
+  /\ UNCHANGED <<tstate, cbLog, bound, detail, pstate, pcbLog, dead, removed,
+                 iso, ownOK, keepOK, unkOK, pcomplete, race, adds, nphase, tonote, atOK>>
+
+\* Task._update for the next passed state: a no-op if the task is final by now
+NApply ==
+  /\ nphase = "apply" /\ plan # <<>>
+  /\ LET u  == plan[1]
+         ss == plan[2]
+         ok == ~IsFinal(NT, tstate[u]) IN
+     /\ tstate' = IF ok THEN [tstate EXCEPT ![u] = Head(ss)] ELSE tstate
+     /\ tonote' = IF ok \/ DevAnnounceUnapplied THEN Append(tonote, <<u, Head(ss)>>) ELSE tonote
+     /\ plan'   = IF Len(ss) = 1 THEN <<>> ELSE <<u, Tail(ss)>>
+  /\ UNCHANGED <<cbLog, bound, detail, pstate, pcbLog, dead, removed,
+                 iso, ownOK, keepOK, unkOK, pcomplete, race, adds, nphase, nb, atOK>>
+
+NToFire ==
+  /\ nphase = "apply" /\ plan = <<>> /\ nb = <<>>
+  /\ nphase' = IF tonote = <<>> THEN "idle" ELSE "fire"
+  /\ UNCHANGED <<tstate, cbLog, bound, detail, pstate, pcbLog, dead, removed,
+                 iso, ownOK, keepOK, unkOK, pcomplete, race, adds, nb, plan, tonote, atOK>>
+
+\* one TASK_STATE callback: the application compares it with Task.state
+NFire ==
+  /\ nphase = "fire"
+  /\ LET u == tonote[1][1]
+         s == tonote[1][2] IN
+     /\ cbLog' = [cbLog EXCEPT ![u] = Append(@, s)]
+     /\ atOK'  = (atOK /\ Val(NT, tstate[u]) >= Val(NT, s) /\ (IsFinal(NT, s) => tstate[u] = s))
+  /\ tonote' = Tail(tonote)
+  /\ nphase' = IF Len(tonote) = 1 THEN "idle" ELSE "fire"
+  /\ UNCHANGED <<tstate, bound, detail, pstate, pcbLog, dead, removed,
+                 iso, ownOK, keepOK, unkOK, pcomplete, race, adds, nb, plan>>
 
 Next ==
   \/ \E b \in TBatches : Notify(b)
@@ -139,6 +296,13 @@ Next ==
   \/ \E p \in Pilots : PilotFinal(p)
   \/ \E b \in PBatches : PNotify(b)
   \/ \E p \in Pilots : RemovePilots(p)
+  \/ \E G \in SUBSET Pilots : AddPilots(G)
+  \/ \E p \in Pilots : DeathSelect(p)
+  \/ \E t \in Tasks : DeathApply(t)
+  \/ DeathEnd
+  \/ \E t \in Tasks, s \in AllStates(NT) : DirectUpdate(t, s)
+  \/ \E b \in TBatches : NBegin(b)
+  \/ NSelect \/ NApply \/ NToFire \/ NFire
 
 Spec == Init /\ [][Next]_vars
 
@@ -148,8 +312,13 @@ Monotone   == \A t \in Tasks : MonotoneLog(NT, cbLog[t])
 AtMostOnce == \A t \in Tasks : AtMostOnceLog(cbLog[t])
 \* every state change is announced, one step at a time (a task failed by the
 \* pilot callback is the exception: that path has no callback of its own)
-GapsFilled == \A t \in Tasks : /\ GapsFilledLog(NT, cbLog[t])
-                               /\ tstate[t] = LastOr(0, cbLog[t]) \/ detail[t] # None
+Pending(t) == LET mine == SelectSeq(tonote, LAMBDA x : x[1] = t)
+              IN [i \in 1 .. Len(mine) |-> mine[i][2]]
+GapsFilled == \A t \in Tasks : /\ GapsFilledLog(NT, cbLog[t] \o Pending(t))
+                               /\ tstate[t] = LastOr(0, cbLog[t] \o Pending(t)) \/ detail[t] # None
+\* what a callback announces is not contradicted by Task.state: the state is at
+\* least that far, and an announced final state is the task's state
+CbAgrees == atOK
 BatchIsolation == iso
 FinalSticky == [][\A t \in Tasks : IsFinal(NT, tstate[t]) => tstate'[t] = tstate[t]]_vars
 
